@@ -57,7 +57,8 @@ class _ClassifyNames(ast.NodeVisitor):
         args = node.args
 
         self.generic_visit_list(args.defaults)
-        self.generic_visit_list(args.kw_defaults)
+        # kw_defaults contains None for keyword-only parameters without default
+        self.generic_visit_list([d for d in args.kw_defaults if d is not None])
 
         subargs = [arg.arg for arg in [*args.posonlyargs, *args.args, *args.kwonlyargs]]
 
